@@ -5,6 +5,7 @@ import (
 	"bytes"
 	"fmt"
 	"io/fs"
+	"math"
 	"os"
 	"path/filepath"
 	"regexp"
@@ -65,6 +66,8 @@ func processFile(filePath string, version string, year string) error {
 // in a more elegant way. Right now we just match strings.
 func updateRules(version string, year string, contents []byte) ([]byte, error) {
 	scanner := bufio.NewScanner(bytes.NewReader(contents))
+	// lines may be longer than bufio.MaxScanTokenSize
+	scanner.Buffer(nil, math.MaxInt)
 	scanner.Split(bufio.ScanLines)
 	output := new(bytes.Buffer)
 	writer := bufio.NewWriter(output)
